@@ -10,17 +10,11 @@ set_option linter.unusedSectionVars false
 set_option linter.unusedVariables false
 
 namespace PCV
+namespace MV
 variable {F : Type} [Field F]
 
 /-! ### powers -/
 
-@[simp] theorem fpow_zero (x : F) : fpow x 0 = 1 := rfl
-theorem fpow_succ (x : F) (n : Nat) : fpow x (n + 1) = x * fpow x n := rfl
-
-theorem fpow_add (x : F) (a b : Nat) : fpow x (a + b) = fpow x a * fpow x b := by
-  induction a with
-  | zero => simp
-  | succ a ih => rw [Nat.succ_add, fpow_succ, fpow_succ, ih]; ring
 
 /-! ### terms -/
 
@@ -480,4 +474,5 @@ theorem degree_le_degreeMV (p : MVPoly F) : âˆ€ t âˆˆ termsOf p, Term.degree t â
     Â· exact Nat.le_max_left _ _
     Â· exact Nat.le_trans (ih t ht) (Nat.le_max_right _ _)
 
+end MV
 end PCV
